@@ -8,11 +8,15 @@
     sites is tied to /repo by tools/scan_oracle_sites.py (corpus/C19/sites.json):
     a site the scan finds and the list does not know breaks the tie.
 
+    [C19_integrate_dicts_key_order]: the dictionary merge of the mixed tracker
+    (shape map + all_classes_mode) orders its keys by the two input orders only.
+
     rdflib's own iteration order and blank-node ids are NOT modelled; a source
     that passes through rdflib (input_format turtle/xml/n3/json-ld, URL input,
     an rdflib Graph object) is outside the statement (known finding C19-F1). *)
 From Coq Require Import List Ascii String ZArith Bool Permutation.
 From Shexer Require Import Lib.PyStr Lib.Dict Gen.Consts Model.Determinism Proofs.DeterminismProofs.
+From Shexer Require Model.Tracker Model.Selectors Proofs.DictLemmas Proofs.IntegrateOrder.
 Import ListNotations.
 
 (** "nothing in the result depends on randomness unless all four default
@@ -80,6 +84,55 @@ Proof.
   - repeat constructor; cbn; intuition discriminate.
   - apply perm_swap.
   - vm_compute. discriminate.
+Qed.
+
+(** MixedInstanceTracker._integrate_dicts (a shape map next to
+    all_classes_mode: the dictionary of the shape-map tracker and the one of
+    the class tracker are merged; [Model/Selectors.v: integrate_dicts], whose
+    ORDERED result the check compares with the real function, entry
+    c19_integrate).  The class profiler walks the merged dictionary, so its key
+    order reaches the ShExC text (order of equally frequent constraints, shape
+    examples).  That order is a function of the key orders of the two
+    dictionaries -- each of them insertion-ordered, hence a function of the
+    document -- and of nothing else: no set, no hash.  The function is a
+    reviewed site of corpus/C19/sites.json pinned by the hash of its source:
+    an edit re-opens this review. *)
+Theorem C19_add_new_unfold : forall acc k,
+  DictLemmas.add_new acc k = if mem_str k acc then acc else acc ++ [k].
+Proof. reflexivity. Qed.
+
+Theorem C19_integrate_dicts_key_order : forall (ref new : Tracker.insts) n,
+  dkeys (fst (Selectors.integrate_dicts ref new n)) = fold_left DictLemmas.add_new (dkeys new) (dkeys ref).
+Proof. exact IntegrateOrder.integrate_dicts_key_order. Qed.
+Print Assumptions C19_integrate_dicts_key_order.
+
+(** the class lists, the class names already in use and the disambiguation
+    counter have no influence on it *)
+Theorem C19_integrate_dicts_key_order_function : forall (ref ref' new new' : Tracker.insts) n n',
+  dkeys ref = dkeys ref' -> dkeys new = dkeys new' ->
+  dkeys (fst (Selectors.integrate_dicts ref new n)) = dkeys (fst (Selectors.integrate_dicts ref' new' n')).
+Proof. exact IntegrateOrder.integrate_dicts_key_order_function. Qed.
+Print Assumptions C19_integrate_dicts_key_order_function.
+
+(** for a dictionary (every key once): the reference keys, then the keys only
+    the second tracker knows, in the second tracker's order *)
+Theorem C19_integrate_dicts_new_keys_in_order : forall (ref new : Tracker.insts) n,
+  NoDup (dkeys new) ->
+  dkeys (fst (Selectors.integrate_dicts ref new n)) = dkeys ref ++ filter (fun k => negb (dmem ref k)) (dkeys new).
+Proof. exact IntegrateOrder.integrate_dicts_key_order_filter. Qed.
+Print Assumptions C19_integrate_dicts_new_keys_in_order.
+
+(** non-vacuity: hub selected by the shape map; g2, g0, g1 typed in that
+    order in the document, g0 also selected *)
+Example C19_integrate_dicts_example :
+  let ref := [(Str "hub", [Str "<Hub>"]); (Str "g0", [Str "<Hub>"])] in
+  let new := [(Str "g2", [Str "G"]); (Str "g0", [Str "G"]); (Str "g1", [Str "G"])] in
+  NoDup (dkeys new) /\
+  fst (Selectors.integrate_dicts ref new 0) =
+    [(Str "hub", [Str "<Hub>"]); (Str "g0", [Str "<Hub>"; Str "G"]); (Str "g2", [Str "G"]); (Str "g1", [Str "G"])].
+Proof.
+  split; [|vm_compute; reflexivity].
+  repeat constructor; cbn; intuition discriminate.
 Qed.
 
 (** non-vacuity: the default situation (user dictionary without the empty prefix) *)
